@@ -89,6 +89,8 @@ pub enum Error {
         location: Location,
     },
     NonPrimitiveInFeed(Location),
+    /// The maximum length of `delay` (its first argument) is not a number literal
+    NonLiteralDelaySize(Location),
     /// Constructor pattern doesn't match any variant of the union type
     ConstructorNotInUnion {
         constructor: Symbol,
@@ -197,6 +199,9 @@ impl ReportableError for Error {
             }
             Error::NonPrimitiveInFeed(_) => {
                 format!("Function that uses `self` cannot return function type.")
+            }
+            Error::NonLiteralDelaySize(_) => {
+                format!("The maximum length of `delay` (its first argument) must be a number literal.")
             }
             Error::DuplicateKeyInParams { .. } => {
                 format!("Duplicate keys found in parameter list")
@@ -427,6 +432,9 @@ impl ReportableError for Error {
             }
             Error::NonPrimitiveInFeed(loc) => {
                 vec![(loc.clone(), format!("This cannot be function type."))]
+            }
+            Error::NonLiteralDelaySize(loc) => {
+                vec![(loc.clone(), format!("This is not a number literal."))]
             }
             Error::DuplicateKeyInRecord { key, loc } => {
                 vec![(
@@ -2130,6 +2138,18 @@ impl InferContext {
 
     /// Resolve a type through intermediate type variables, type aliases, and
     /// single-element wrappers, returning the concrete inner type.
+    /// True when `name` refers to an intrinsic, builtin or external function (bound as
+    /// `EvalStage::Persistent`) and not to a user definition shadowing it.
+    fn is_persistent_binding(&self, name: Symbol) -> bool {
+        use crate::utils::environment::LookupRes;
+        matches!(
+            self.env.lookup_cls(&name),
+            LookupRes::Local((_, EvalStage::Persistent))
+                | LookupRes::UpValue(_, (_, EvalStage::Persistent))
+                | LookupRes::Global((_, EvalStage::Persistent))
+        )
+    }
+
     fn peel_to_inner(&self, ty: TypeNodeId) -> TypeNodeId {
         let resolved = self.resolve_type_alias(ty);
         match resolved.to_type() {
@@ -2594,6 +2614,21 @@ impl InferContext {
             }
             Expr::Apply(fun, callee) => {
                 let loc_f = fun.to_location();
+
+                // The state storage of the built-in `delay` is sized at compile time from its
+                // first argument, which therefore has to be a number literal (or a macro splice
+                // that is replaced by generated code before MIR generation).
+                if let (Expr::Var(name), [max, _, _]) = (fun.to_expr(), callee.as_slice())
+                    && name == intrinsics::DELAY.to_symbol()
+                    && self.is_persistent_binding(name)
+                    && !matches!(
+                        max.to_expr(),
+                        Expr::Literal(Literal::Float(_)) | Expr::Escape(_)
+                    )
+                {
+                    self.errors
+                        .push(Error::NonLiteralDelaySize(max.to_location()));
+                }
 
                 if callee.len() == 2 && self.try_get_tuple_arithmetic_binop_label(*fun).is_some() {
                     let lhs_ty = self.infer_type_unwrapping(callee[0]);
